@@ -6,6 +6,7 @@ func init() {
 		"'reported' = returned by a Collect call that returned nil or contained in a payload handed to the reader's exporter; a user Collect on a PeriodicReader counts as a consumer of that reader's pipeline",
 		"for an export only the instant Export was entered is known: lower bounds (nothing lost / late) are asserted at ManualReader collections and at ForceFlush / Shutdown calls that returned nil, upper bounds (nothing counted twice or invented) at every collection",
 		"Adds issued while or after Shutdown runs may or may not be reported; calls after Shutdown returned are only required not to panic",
+		"instruments of one meter that share a name but differ in kind or number type are different instruments (the SDK only warns about the duplicate registration and reports each as its own metric); a reported metric is attributed to an instrument by (scope, name, Sum[int64] / Sum[float64], IsMonotonic)",
 		"OTEL_GO_X_CARDINALITY_LIMIT is unset (the driver strips OTEL_* variables)",
 	))
 }
